@@ -144,6 +144,15 @@ class Scenario:
                     end(x)
                 return body()
             return f
+        if kind == "done":
+            # a consumer that hands back an awaitable which has already completed
+            def f(x):
+                scen.log.append(("in", name, scen.loop.time(), _freeze(x)))
+                scen.log.append(("out", name, scen.loop.time(), _freeze(x)))
+                out = scen.loop.create_future()
+                out.set_result(None)
+                return out
+            return f
         if kind == "gen":
             from tornado import gen
 
